@@ -149,36 +149,25 @@ BUILDS = {
                  prelude=P0 + ['prelude/x_eqrk.vrs', 'prelude/x_pp.vrs', 'prelude/x_tw.vrs', 'prelude/x_twc.vrs', 'prelude/x_so.vrs',
                                'prelude/x_memmem.vrs', 'prelude/x_meta.vrs', 'prelude/hist.vrs']),
     # other targets (text the x86_64 host never compiles)
-    'aarch64': dict(parts=['ext', 'vector', 'vector_neon', 'generic_memchr', 'all_memchr', 'neon_memchr', 'aarch64_memchr',
-                           'memchr_top_aarch64', 'root_reexport', 'all_mod', 'all_packedpair', 'all_default_rank',
-                           'generic_packedpair', 'neon_packedpair'],
-                    prelude=P0 + ['prelude/isa.vrs', 'prelude/x_eqrk.vrs', 'prelude/x_pp.vrs']),
-    'wasm32': dict(parts=['ext', 'vector', 'vector_wasm', 'generic_memchr', 'all_memchr', 'simd128_memchr', 'wasm32_memchr',
-                          'memchr_top_wasm32', 'root_reexport', 'all_mod', 'all_packedpair', 'all_default_rank',
-                          'generic_packedpair', 'simd128_packedpair'],
-                   prelude=P0 + ['prelude/isa.vrs', 'prelude/x_eqrk.vrs', 'prelude/x_pp.vrs']),
-    'other': dict(parts=['ext', 'vector', 'generic_memchr', 'all_memchr', 'memchr_top_other', 'root_reexport'], prelude=P0),
     # 32-bit targets: the same portable wiring with a 4-byte usize (the SWAR chunk is 4 bytes wide)
-    'other32': dict(parts=['ext', 'vector', 'generic_memchr', 'all_memchr_32', 'memchr_top_other', 'root_reexport'], prelude=P0,
-                    usize_bytes=4),
-    'aarch64_full': dict(parts=['ext', 'vector', 'vector_neon', 'generic_memchr', 'all_memchr', 'neon_memchr', 'aarch64_memchr',
+    'aarch64': dict(parts=['ext', 'vector', 'vector_neon', 'generic_memchr', 'all_memchr', 'neon_memchr', 'aarch64_memchr',
                                 'memchr_top_aarch64', 'root_reexport', 'all_mod', 'all_rabinkarp', 'all_packedpair', 'all_default_rank',
                                 'generic_packedpair', 'neon_packedpair', 'all_twoway', 'all_shiftor', 'cow', 'memmem_mod',
                                 'memmem_meta_aarch64', 'memmem_searcher'],
                          prelude=P0 + ['prelude/isa.vrs', 'prelude/x_eqrk.vrs', 'prelude/x_pp.vrs', 'prelude/x_tw.vrs', 'prelude/x_twc.vrs',
                                        'prelude/x_so.vrs', 'prelude/x_memmem.vrs', 'prelude/x_meta.vrs']),
-    'wasm32_full': dict(parts=['ext', 'vector', 'vector_wasm', 'generic_memchr', 'all_memchr', 'simd128_memchr', 'wasm32_memchr',
+    'wasm32': dict(parts=['ext', 'vector', 'vector_wasm', 'generic_memchr', 'all_memchr', 'simd128_memchr', 'wasm32_memchr',
                                'memchr_top_wasm32', 'root_reexport', 'all_mod', 'all_rabinkarp', 'all_packedpair', 'all_default_rank',
                                'generic_packedpair', 'simd128_packedpair', 'all_twoway', 'all_shiftor', 'cow', 'memmem_mod',
                                'memmem_meta_wasm32', 'memmem_searcher'],
                         prelude=P0 + ['prelude/isa.vrs', 'prelude/x_eqrk.vrs', 'prelude/x_pp.vrs', 'prelude/x_tw.vrs', 'prelude/x_twc.vrs',
                                       'prelude/x_so.vrs', 'prelude/x_memmem.vrs', 'prelude/x_meta.vrs']),
-    'other_full': dict(parts=['ext', 'vector', 'generic_memchr', 'all_memchr', 'memchr_top_other', 'root_reexport', 'all_mod',
+    'other': dict(parts=['ext', 'vector', 'generic_memchr', 'all_memchr', 'memchr_top_other', 'root_reexport', 'all_mod',
                               'all_rabinkarp', 'all_packedpair', 'all_default_rank', 'all_twoway', 'all_shiftor', 'cow', 'memmem_mod',
                               'memmem_meta_other', 'memmem_searcher'],
                        prelude=P0 + ['prelude/x_eqrk.vrs', 'prelude/x_pp.vrs', 'prelude/x_tw.vrs', 'prelude/x_twc.vrs', 'prelude/x_so.vrs',
                                      'prelude/x_memmem.vrs', 'prelude/x_meta.vrs']),
-    'other32_full': dict(parts=['ext', 'vector', 'generic_memchr', 'all_memchr_32', 'memchr_top_other', 'root_reexport', 'all_mod',
+    'other32': dict(parts=['ext', 'vector', 'generic_memchr', 'all_memchr_32', 'memchr_top_other', 'root_reexport', 'all_mod',
                                 'all_rabinkarp', 'all_packedpair', 'all_default_rank', 'all_twoway', 'all_shiftor', 'cow', 'memmem_mod',
                                 'memmem_meta_other', 'memmem_searcher'],
                          prelude=P0 + ['prelude/x_eqrk.vrs', 'prelude/x_pp.vrs', 'prelude/x_tw.vrs', 'prelude/x_twc.vrs', 'prelude/x_so.vrs',
